@@ -24,8 +24,9 @@ def fresh(prefix):
 class Arr:
     """lazily indexed symbolic array"""
 
-    def __init__(self, dims, elem):
+    def __init__(self, dims, elem, mask=None):
         self.dims, self.elem = tuple(dims), elem
+        self.mask = mask      # boolean Arr this array was selected with (a[mask]), if any
 
     def at(self, *ix):
         return self.elem(*ix)
@@ -147,7 +148,10 @@ def ew(f, *vals):
             else:
                 args.append(as_rf(v))
         return f(*args)
-    return Arr(dims, elem)
+    masks = [a.mask for a in arrs if a.mask is not None]
+    if len({id(m) for m in masks}) > 1:
+        raise Unsupported("arrays selected with different boolean masks are combined")
+    return Arr(dims, elem, masks[0] if masks else None)
 
 
 def _compatible(d1, d2):
@@ -171,6 +175,10 @@ def as_rf(v):
 
 def total(v, axis=None):
     v = finalize(v) if isinstance(v, Fill) else v
+    if isinstance(v, Arr) and v.mask is not None:
+        # a[mask] reduced: the mask weights the summand
+        m = v.mask
+        v = Arr(v.dims, lambda *ix, v=v, m=m: as_rf(m.at(*ix)) * as_rf(v.at(*ix)))
     if isinstance(v, Arr):
         if v.ndim == 1:
             i = fresh("s")
@@ -447,6 +455,10 @@ class Lifter:
                 # boolean mask store: value[mask] = expr(w[mask])
                 mask = iv
                 vv = finalize(v) if isinstance(v, Fill) else v
+                if isinstance(vv, Arr) and vv.mask is not None and vv.mask is not mask:
+                    # same mask expression evaluated twice gives distinct objects: compare a probe
+                    if as_rf(vv.mask.at("__m")).key() != as_rf(mask.at("__m")).key():
+                        raise Unsupported("masked store of a value selected with another mask")
                 old = finalize(base)
 
                 def elem(*ix, mask=mask, vv=vv, old=old):
@@ -819,6 +831,7 @@ class Lifter:
             fixed = {}
             gather = {}
             newdims = []
+            read_mask = None
             for k, p in enumerate(parts):
                 if isinstance(p, ast.Slice):
                     if p.lower is None and p.upper is None:
@@ -846,8 +859,10 @@ class Lifter:
                         gather[k] = v
                         newdims.append(v.dims[0])
                     elif isinstance(probe, BoolV):
-                        # boolean mask read: keep full extent, the mask is applied at the store
+                        # boolean mask read a[mask]: full extent, remembered mask (applied by
+                        # reductions and checked at masked stores)
                         newdims.append(base.dims[k])
+                        read_mask = v
                     else:
                         raise Unsupported("array index")
                 elif isinstance(v, Csc) and v.part == "indices":
@@ -874,7 +889,7 @@ class Lifter:
                 return base.at(*full)
             if not newdims:
                 return elem()
-            return Arr(newdims, elem)
+            return Arr(newdims, elem, read_mask if read_mask is not None else base.mask)
         raise Unsupported(f"subscript of {type(base).__name__}")
 
     # ---- calls
@@ -1000,6 +1015,9 @@ class Lifter:
             raise Unsupported("np.arange")
         if name in ("np.argsort", "np.sort"):
             raise Unsupported(name)
+        if name == "float" and len(args) == 1 and isinstance(args[0], PyConst) \
+                and str(args[0].v).lower() in ("inf", "infinity", "+inf"):
+            return sym("INF")
         if name in ("float", "np.float64", "int"):
             return args[0]
         # repo helper function
@@ -1047,8 +1065,8 @@ class Lifter:
         if isinstance(a, Arr) and a.ndim == 1:
             if o is not None and not (isinstance(o, RF) and o.const_value() == 2):
                 raise Unsupported("vector norm order")
-            i = fresh("n")
-            return fn("sqrt", summation(a.dims[0], i, as_rf(a.at(i)).powi(2)))
+            sq = ew(lambda x: x.powi(2), a)
+            return fn("sqrt", total(sq))
         if isinstance(a, Arr) and a.ndim == 2:
             if o is not None and isinstance(o, RF) and o.const_value() == 2 and "axis" not in kw:
                 return spec_norm(lambda i, j, a=a: as_rf(a.at(i, j)))
